@@ -12,6 +12,22 @@ import sys
 
 VERIF = os.path.dirname(os.path.dirname(os.path.abspath(__file__)))
 WT = "/tmp/seedtest"
+BASELINE_FAIL = {"test_asyncio_await_method", "test_doist_dos", "test_filing", "test_client_request_echo_port_empty",
+                 "test_requester_respondent_echo_tls"}     # fail on the unmodified tree (tree tests, PYTHONPATH=<wt>/src)
+
+
+def run_tree_tests():
+    """the repository's own tests against the scratch worktree's sources, in a private network namespace"""
+    # private network namespace (fixed ports) and private mounts over the fixed directories the tests write to
+    # (/usr/local/var/hio, /tmp/hio): parallel runs must not see each other's files
+    cmd = ["unshare", "-n", "-m", "sh", "-c", "mount -t tmpfs tmpfs /usr/local/var/hio; mkdir -p /tmp/hio; mount -t tmpfs tmpfs /tmp/hio; "
+           "ip link set lo up; cd %s && PYTHONPATH=%s/src PYTHONDONTWRITEBYTECODE=1 "
+           "timeout 1500 /venv/bin/python -m pytest -q -p no:cacheprovider tests 2>&1 | tail -15" % (WT, WT)]
+    r = subprocess.run(cmd, capture_output=True, text=True)
+    import re
+    failed = set(re.findall(r"FAILED \S+::(\w+)", r.stdout))
+    tail = r.stdout.strip().splitlines()[-1] if r.stdout.strip() else "no output"
+    return sorted(failed - BASELINE_FAIL), tail
 
 
 def sh(*a, **k):
@@ -33,8 +49,11 @@ def run_demo(demo, netns):
 
 
 def main():
+    global WT
     src, name = sys.argv[1], sys.argv[2]
     netns = "--netns" in sys.argv
+    if "--wt" in sys.argv:
+        WT = sys.argv[sys.argv.index("--wt") + 1]
     patch, demo = os.path.join(src, "patch.diff"), os.path.join(src, "demo.py")
     if not os.path.isdir(WT):
         sh("git", "-C", "/repo", "worktree", "add", "-q", "--detach", WT, "HEAD")
@@ -43,9 +62,9 @@ def main():
     sh("git", "-C", WT, "reset", "-q", "--hard", head)
     text = open(demo).read()
     # demos written against the agent's own worktree: point them at the scratch worktree
-    tmpdemo = "/tmp/seedtest.demo.py"
+    tmpdemo = WT + ".demo.py"
     import re
-    open(tmpdemo, "w").write(re.sub(r"/tmp/seed/C\d+(?=/|['\"])", WT, text))
+    open(tmpdemo, "w").write(re.sub(r"/tmp/seed\d?/C\d+(?=/|['\"])", WT, text))
     rc_clean, out_clean = run_demo(tmpdemo, netns)
     r = sh("git", "-C", WT, "apply", patch)
     if r.returncode:
@@ -56,20 +75,26 @@ def main():
     applied = sh("git", "-C", WT, "diff", "HEAD").stdout
     rc_pat, out_pat = run_demo(tmpdemo, netns)
     checks = sorted(os.path.basename(p)[:-3].upper() for p in glob.glob(os.path.join(VERIF, "hiolint/props/c*.py")))
-    env = dict(os.environ, HIOLINT_REPO=WT, HIOLINT_EVID="/tmp/seedtest.evid", HIOLINT_JOBS="1")
+    newfail, testtail = (None, "not run")
+    if "--tests" in sys.argv:
+        newfail, testtail = run_tree_tests()
+    env = dict(os.environ, HIOLINT_REPO=WT, HIOLINT_EVID=WT + ".evid", HIOLINT_JOBS="1")
     fired, errors = {}, {}
-    for c in checks:
-        r = sh(os.path.join(VERIF, "check"), c, env=env, cwd=VERIF)
+    from concurrent.futures import ThreadPoolExecutor
+    with ThreadPoolExecutor(8) as ex:
+        results = list(ex.map(lambda c: (c, sh(os.path.join(VERIF, "check"), c, env=env, cwd=VERIF)), checks))
+    shutil.rmtree(WT + ".evid", ignore_errors=True)
+    for c, r in results:
         if r.returncode == 1:
             fired[c] = [l[:300] for l in r.stdout.splitlines() if l.startswith("src/")][:4]
         elif r.returncode == 2:
             errors[c] = [l[:300] for l in r.stdout.splitlines() if "ANALYSIS-ERROR" in l][:2]
     sh("git", "-C", WT, "reset", "-q", "--hard", head)
     sh("git", "-C", WT, "clean", "-fdq")
-    for d in glob.glob("/tmp/hio_*"):
-        shutil.rmtree(d, ignore_errors=True)
-    print("%s: demo clean rc=%s, patched rc=%s; fired=%s errors=%s" % (name, rc_clean, rc_pat, sorted(fired), sorted(errors)))
-    confirmed = rc_clean == 0 and rc_pat != 0
+    os.remove(tmpdemo)
+    print("%s: demo clean rc=%s, patched rc=%s; tests: new failures=%s (%s); fired=%s errors=%s" % (
+        name, rc_clean, rc_pat, newfail, testtail, sorted(fired), sorted(errors)))
+    confirmed = rc_clean == 0 and rc_pat != 0 and not newfail
     if not confirmed:
         print("NOT CONFIRMED\n--- clean:\n%s\n--- patched:\n%s" % (out_clean, out_pat))
         return 1
@@ -88,6 +113,7 @@ def main():
         meta["checks_fired_when_first_confirmed"] = sorted(meta["checks_fired"])
     meta.update({"name": name, "repo_head_when_confirmed": head,
                  "confirmed": {"demo_on_clean_tree_rc": rc_clean, "demo_with_patch_rc": rc_pat,
+                               "tree_tests_with_patch": {"new_failures_beyond_baseline": newfail, "summary": testtail},
                                "how": "scratch worktree of /repo HEAD; PYTHONPATH=<wt>/src /venv/bin/python demo.py"},
                  "checks_fired": fired, "checks_analysis_error": errors,
                  "detected": bool(fired)})
